@@ -221,15 +221,337 @@ theorem C04_inv_gives_loop_keys (w : World) (h : WInv w) : ∀ c s, w.cifs.getD 
 
 -- ---- corollaries named by the property, proved on the model ---------------------------------------------------------------
 
-/-- CIFs are independent: an op leaves every CIF other than the one its handle belongs to exactly as it was
-    (stated for the ops whose target CIF is explicit; the handle-addressed ops go through `World.setCif` on the CIF of the
-    handle in the same way — see `step`) -/
-theorem cifs_independent (w : World) (c c' : Nat) (n : Option Name) (hne : c' ≠ c) :
-    (step w (.mkBlock c n)).1.cifs.getD c' none = w.cifs.getD c' none := by
-  simp only [step]
+/-- CIFs are independent: EVERY op touches at most one managed CIF — all the others are, as whole stores, exactly what they were -/
+theorem cifs_independent (w : World) (op : Op) :
+    ∃ c, ∀ c', c' ≠ c → (step w op).1.cifs.getD c' none = w.cifs.getD c' none := by
+  cases op <;> simp only [step]
+  case cifNew =>
+    refine ⟨w.cifs.length, fun c' hc => ?_⟩
+    simp only [List.getD]
+    by_cases h : c' < w.cifs.length
+    · rw [List.getElem?_append_left h]
+    · have hge : w.cifs.length ≤ c' := by omega
+      rw [List.getElem?_append_right hge, List.getElem?_eq_none hge]
+      have : c' - w.cifs.length ≠ 0 := by omega
+      cases hk : c' - w.cifs.length with
+      | zero => exact absurd hk this
+      | succ k => simp
+  case cifDel c =>
+    cases hl : w.liveC c with
+    | none => exact ⟨0, fun _ _ => rfl⟩
+    | some s =>
+      refine ⟨c, fun c' hc => ?_⟩
+      try simp only []
+      repeat' split
+      all_goals first | rfl | exact getD_set_ne' _ _ _ _ hc
+  case mkBlock c n =>
+    cases hl : w.liveC c with
+    | none => exact ⟨0, fun _ _ => rfl⟩
+    | some s =>
+      refine ⟨c, fun c' hc => ?_⟩
+      try simp only []
+      repeat' split
+      all_goals first | rfl | exact getD_set_ne' _ _ _ _ hc
+  case getBlock c n =>
+    cases hl : w.liveC c with
+    | none => exact ⟨0, fun _ _ => rfl⟩
+    | some s =>
+      refine ⟨c, fun c' hc => ?_⟩
+      try simp only []
+      repeat' split
+      all_goals first | rfl | exact getD_set_ne' _ _ _ _ hc
+  case blocks c =>
+    cases hl : w.liveC c with
+    | none => exact ⟨0, fun _ _ => rfl⟩
+    | some s =>
+      refine ⟨c, fun c' hc => ?_⟩
+      try simp only []
+      repeat' split
+      all_goals first | rfl | exact getD_set_ne' _ _ _ _ hc
+  case mkFrame hh n =>
+    cases hl : w.liveH hh with
+    | none => exact ⟨0, fun _ _ => rfl⟩
+    | some p =>
+      obtain ⟨e, s⟩ := p
+      refine ⟨e.cif, fun c' hc => ?_⟩
+      try simp only []
+      repeat' split
+      all_goals first | rfl | exact getD_set_ne' _ _ _ _ hc
+  case getFrame hh n =>
+    cases hl : w.liveH hh with
+    | none => exact ⟨0, fun _ _ => rfl⟩
+    | some p =>
+      obtain ⟨e, s⟩ := p
+      refine ⟨e.cif, fun c' hc => ?_⟩
+      try simp only []
+      repeat' split
+      all_goals first | rfl | exact getD_set_ne' _ _ _ _ hc
+  case frames hh =>
+    cases hl : w.liveH hh with
+    | none => exact ⟨0, fun _ _ => rfl⟩
+    | some p =>
+      obtain ⟨e, s⟩ := p
+      refine ⟨e.cif, fun c' hc => ?_⟩
+      try simp only []
+      repeat' split
+      all_goals first | rfl | exact getD_set_ne' _ _ _ _ hc
+  case cdestroy hh =>
+    cases hl : w.liveH hh with
+    | none => exact ⟨0, fun _ _ => rfl⟩
+    | some p =>
+      obtain ⟨e, s⟩ := p
+      refine ⟨e.cif, fun c' hc => ?_⟩
+      try simp only []
+      repeat' split
+      all_goals first | rfl | exact getD_set_ne' _ _ _ _ hc
+  case code hh =>
+    cases hl : w.liveH hh with
+    | none => exact ⟨0, fun _ _ => rfl⟩
+    | some p =>
+      obtain ⟨e, s⟩ := p
+      refine ⟨e.cif, fun c' hc => ?_⟩
+      try simp only []
+      repeat' split
+      all_goals first | rfl | exact getD_set_ne' _ _ _ _ hc
+  case isBlock hh =>
+    cases hl : w.liveH hh with
+    | none => exact ⟨0, fun _ _ => rfl⟩
+    | some p =>
+      obtain ⟨e, s⟩ := p
+      refine ⟨e.cif, fun c' hc => ?_⟩
+      try simp only []
+      repeat' split
+      all_goals first | rfl | exact getD_set_ne' _ _ _ _ hc
+  case mkLoop hh cat names =>
+    cases hl : w.liveH hh with
+    | none => exact ⟨0, fun _ _ => rfl⟩
+    | some p =>
+      obtain ⟨e, s⟩ := p
+      refine ⟨e.cif, fun c' hc => ?_⟩
+      try simp only []
+      repeat' split
+      all_goals first | rfl | exact getD_set_ne' _ _ _ _ hc
+  case catLoop hh cat =>
+    cases hl : w.liveH hh with
+    | none => exact ⟨0, fun _ _ => rfl⟩
+    | some p =>
+      obtain ⟨e, s⟩ := p
+      refine ⟨e.cif, fun c' hc => ?_⟩
+      try simp only []
+      repeat' split
+      all_goals first | rfl | exact getD_set_ne' _ _ _ _ hc
+  case itemLoop hh n =>
+    cases hl : w.liveH hh with
+    | none => exact ⟨0, fun _ _ => rfl⟩
+    | some p =>
+      obtain ⟨e, s⟩ := p
+      refine ⟨e.cif, fun c' hc => ?_⟩
+      try simp only []
+      repeat' split
+      all_goals first | rfl | exact getD_set_ne' _ _ _ _ hc
+  case loops hh =>
+    cases hl : w.liveH hh with
+    | none => exact ⟨0, fun _ _ => rfl⟩
+    | some p =>
+      obtain ⟨e, s⟩ := p
+      refine ⟨e.cif, fun c' hc => ?_⟩
+      try simp only []
+      repeat' split
+      all_goals first | rfl | exact getD_set_ne' _ _ _ _ hc
+  case prune hh =>
+    cases hl : w.liveH hh with
+    | none => exact ⟨0, fun _ _ => rfl⟩
+    | some p =>
+      obtain ⟨e, s⟩ := p
+      refine ⟨e.cif, fun c' hc => ?_⟩
+      try simp only []
+      repeat' split
+      all_goals first | rfl | exact getD_set_ne' _ _ _ _ hc
+  case getVal hh n =>
+    cases hl : w.liveH hh with
+    | none => exact ⟨0, fun _ _ => rfl⟩
+    | some p =>
+      obtain ⟨e, s⟩ := p
+      refine ⟨e.cif, fun c' hc => ?_⟩
+      try simp only []
+      repeat' split
+      all_goals first | rfl | exact getD_set_ne' _ _ _ _ hc
+  case setVal hh n v =>
+    cases hl : w.liveH hh with
+    | none => exact ⟨0, fun _ _ => rfl⟩
+    | some p =>
+      obtain ⟨e, s⟩ := p
+      refine ⟨e.cif, fun c' hc => ?_⟩
+      try simp only []
+      repeat' split
+      all_goals first | rfl | exact getD_set_ne' _ _ _ _ hc
+  case rmItem hh n =>
+    cases hl : w.liveH hh with
+    | none => exact ⟨0, fun _ _ => rfl⟩
+    | some p =>
+      obtain ⟨e, s⟩ := p
+      refine ⟨e.cif, fun c' hc => ?_⟩
+      try simp only []
+      repeat' split
+      all_goals first | rfl | exact getD_set_ne' _ _ _ _ hc
+  case ldestroy l =>
+    cases hl : w.liveL l with
+    | none => exact ⟨0, fun _ _ => rfl⟩
+    | some p =>
+      obtain ⟨e, s⟩ := p
+      refine ⟨e.cif, fun c' hc => ?_⟩
+      try simp only []
+      repeat' split
+      all_goals first | rfl | exact getD_set_ne' _ _ _ _ hc
+  case getCat l =>
+    cases hl : w.liveL l with
+    | none => exact ⟨0, fun _ _ => rfl⟩
+    | some p =>
+      obtain ⟨e, s⟩ := p
+      refine ⟨e.cif, fun c' hc => ?_⟩
+      try simp only []
+      repeat' split
+      all_goals first | rfl | exact getD_set_ne' _ _ _ _ hc
+  case setCat l cat =>
+    cases hl : w.liveL l with
+    | none => exact ⟨0, fun _ _ => rfl⟩
+    | some p =>
+      obtain ⟨e, s⟩ := p
+      refine ⟨e.cif, fun c' hc => ?_⟩
+      try simp only []
+      repeat' split
+      all_goals first | rfl | exact getD_set_ne' _ _ _ _ hc
+  case names l =>
+    cases hl : w.liveL l with
+    | none => exact ⟨0, fun _ _ => rfl⟩
+    | some p =>
+      obtain ⟨e, s⟩ := p
+      refine ⟨e.cif, fun c' hc => ?_⟩
+      try simp only []
+      repeat' split
+      all_goals first | rfl | exact getD_set_ne' _ _ _ _ hc
+  case addItem l n v =>
+    cases hl : w.liveL l with
+    | none => exact ⟨0, fun _ _ => rfl⟩
+    | some p =>
+      obtain ⟨e, s⟩ := p
+      refine ⟨e.cif, fun c' hc => ?_⟩
+      try simp only []
+      repeat' split
+      all_goals first | rfl | exact getD_set_ne' _ _ _ _ hc
+  case addPkt l p =>
+    cases hl : w.liveL l with
+    | none => exact ⟨0, fun _ _ => rfl⟩
+    | some p =>
+      obtain ⟨e, s⟩ := p
+      refine ⟨e.cif, fun c' hc => ?_⟩
+      try simp only []
+      repeat' split
+      all_goals first | rfl | exact getD_set_ne' _ _ _ _ hc
+  case itOpen l =>
+    cases hl : w.liveL l with
+    | none => exact ⟨0, fun _ _ => rfl⟩
+    | some p =>
+      obtain ⟨e, s⟩ := p
+      refine ⟨e.cif, fun c' hc => ?_⟩
+      try simp only []
+      repeat' split
+      all_goals first | rfl | exact getD_set_ne' _ _ _ _ hc
+  case itNext i =>
+    cases hl : w.liveI i with
+    | none => exact ⟨0, fun _ _ => rfl⟩
+    | some p =>
+      obtain ⟨e, s⟩ := p
+      refine ⟨e.cif, fun c' hc => ?_⟩
+      try simp only []
+      repeat' split
+      all_goals first | rfl | exact getD_set_ne' _ _ _ _ hc
+  case itUpd i p =>
+    cases hl : w.liveI i with
+    | none => exact ⟨0, fun _ _ => rfl⟩
+    | some p =>
+      obtain ⟨e, s⟩ := p
+      refine ⟨e.cif, fun c' hc => ?_⟩
+      try simp only []
+      repeat' split
+      all_goals first | rfl | exact getD_set_ne' _ _ _ _ hc
+  case itRem i =>
+    cases hl : w.liveI i with
+    | none => exact ⟨0, fun _ _ => rfl⟩
+    | some p =>
+      obtain ⟨e, s⟩ := p
+      refine ⟨e.cif, fun c' hc => ?_⟩
+      try simp only []
+      repeat' split
+      all_goals first | rfl | exact getD_set_ne' _ _ _ _ hc
+  case itClose i =>
+    cases hl : w.liveI i with
+    | none => exact ⟨0, fun _ _ => rfl⟩
+    | some p =>
+      obtain ⟨e, s⟩ := p
+      refine ⟨e.cif, fun c' hc => ?_⟩
+      try simp only []
+      repeat' split
+      all_goals first | rfl | exact getD_set_ne' _ _ _ _ hc
+  case itAbort i =>
+    cases hl : w.liveI i with
+    | none => exact ⟨0, fun _ _ => rfl⟩
+    | some p =>
+      obtain ⟨e, s⟩ := p
+      refine ⟨e.cif, fun c' hc => ?_⟩
+      try simp only []
+      repeat' split
+      all_goals first | rfl | exact getD_set_ne' _ _ _ _ hc
+
+/-- names are returned in the spelling with which they were created: a frame code comes back as given to create_frame … -/
+theorem names_returned_as_created_frame (s : Store) (hd : CH) (n : Name) (h : CH) (hc : (createFrame s hd (some n)).2 = .ok h) : h.code = n.orig := by
+  revert hc
+  unfold createFrame
   split
-  · rfl
-  · simp only [World.setCif, List.getD, List.getElem?_set_ne (Ne.symm hne)]
+  · intro h; cases h
+  · split
+    · intro h; cases h
+    · split
+      · intro h; cases h
+      · simp only []
+        split
+        · intro h; cases h
+        · rename_i heq _ _ _ _ _ _ _
+          intro h; simp only [Except.ok.injEq] at h; rw [← h]; cases heq; rfl
+
+/-- … and every item of a created loop is stored with the spelling given to create_loop (cif_loop_get_names reports
+    `name_orig` of the loop's rows) -/
+theorem names_returned_as_created_items : ∀ (ns : List Name) (d d' : Db) (cid ln : Nat), addItems d cid ln ns = .ok d' →
+    ∀ n ∈ ns, ∃ i ∈ d'.items, i.cid = cid ∧ i.loopNum = ln ∧ i.name = n.key ∧ i.nameOrig = n.orig
+  | [], _, _, _, _, _, n, hn => nomatch hn
+  | m :: ms, d, d', cid, ln, he, n, hn => by
+    unfold addItems at he
+    split at he
+    · cases he
+    · rename_i d1 hi
+      have hmono : ∀ (ns : List Name) (a b : Db), addItems a cid ln ns = .ok b → ∀ i ∈ a.items, i ∈ b.items := by
+        intro ns
+        induction ns with
+        | nil => intro a b h i hi'; simp [addItems] at h; subst h; exact hi'
+        | cons x xs ih =>
+          intro a b h i hi'
+          unfold addItems at h
+          split at h
+          · cases h
+          · rename_i a1 ha
+            apply ih a1 b h
+            unfold Db.insertItem at ha
+            split at ha; · cases ha
+            split at ha; · cases ha
+            cases ha; exact List.mem_append_left _ hi'
+      rcases List.mem_cons.mp hn with rfl | hn'
+      · refine ⟨{ cid := cid, name := n.key, nameOrig := n.orig, loopNum := ln }, ?_, rfl, rfl, rfl, rfl⟩
+        apply hmono ms d1 d' he
+        unfold Db.insertItem at hi
+        split at hi; · cases hi
+        split at hi; · cases hi
+        cases hi; exact List.mem_append_right _ (List.mem_singleton.mpr rfl)
+      · exact names_returned_as_created_items ms d1 d' cid ln he n hn'
 
 /-- the scalar loop's category cannot be GIVEN to a loop: set_category with "" is always refused, whatever the loop -/
 theorem scalar_category_cannot_be_given (s : Store) (l : LH) :
